@@ -182,7 +182,8 @@ func (t *TupleType) Default() px.Type {
 }
 
 func (t *TupleType) Equals(o interface{}, g px.Guard) bool {
-	if ot, ok := o.(*TupleType); ok && len(t.types) == len(ot.types) && px.Equals(t.size, ot.size, g) {
+	// the size is optional: an absent size means exactly as many elements as there are types
+	if ot, ok := o.(*TupleType); ok && len(t.types) == len(ot.types) && t.givenOrActualSize.Equals(ot.givenOrActualSize, g) {
 		for idx, col := range t.types {
 			if !col.Equals(ot.types[idx], g) {
 				return false
